@@ -121,6 +121,9 @@ func (e StdEng) Reduce(fn interface{}, a Tensor, axis int, defaultValue interfac
 		dimSize = a.Shape()[axis]
 		err = e.E.ReduceLast(typ, dataA, dataReuse, dimSize, defaultValue, fn)
 	default:
+		if at.DataOrder().IsColMajor() {
+			return nil, errors.Errorf("NYI: colmajor")
+		}
 		dim0 := a.Shape()[0]
 		dimSize := a.Shape()[axis]
 		outerStride := a.Strides()[0]
@@ -166,6 +169,9 @@ func (e StdEng) OptimizedReduce(a Tensor, axis int, firstFn, lastFn, defaultFn, 
 		dimSize = a.Shape()[axis]
 		err = e.E.ReduceLast(typ, dataA, dataReuse, dimSize, defaultValue, lastFn)
 	default:
+		if at.DataOrder().IsColMajor() {
+			return nil, errors.Errorf("NYI: colmajor")
+		}
 		dim0 := a.Shape()[0]
 		dimSize := a.Shape()[axis]
 		outerStride := a.Strides()[0]
